@@ -84,19 +84,22 @@ impl Splines {
                         .sum()
                 });
 
-                color_xyb[0] += corr_x * color_xyb[1];
-                color_xyb[2] += corr_b * color_xyb[1];
-                log2_ceil(1u64 + color_xyb.into_iter().max().unwrap()) as u64
+                // Everything here comes from the bitstream: saturate, the caller rejects large areas.
+                color_xyb[0] = color_xyb[0].saturating_add(corr_x.saturating_mul(color_xyb[1]));
+                color_xyb[2] = color_xyb[2].saturating_add(corr_b.saturating_mul(color_xyb[1]));
+                log2_ceil(color_xyb.into_iter().max().unwrap().saturating_add(1)) as u64
             };
 
             let mut width_estimate = 0u64;
             for quant_sigma_dct in quant_spline.sigma_dct {
                 let quant_sigma_dct = quant_sigma_dct.unsigned_abs();
                 let weight = 1 + div_ceil_qa(quant_sigma_dct, quant_adjust);
-                width_estimate += weight * weight * log_color;
+                width_estimate = width_estimate
+                    .saturating_add(weight.saturating_mul(weight).saturating_mul(log_color));
             }
 
-            total_area += width_estimate * quant_spline.manhattan_distance;
+            total_area = total_area
+                .saturating_add(width_estimate.saturating_mul(quant_spline.manhattan_distance));
         }
 
         total_area
@@ -105,7 +108,8 @@ impl Splines {
 
 #[inline]
 fn log2_ceil(x: u64) -> u32 {
-    x.next_power_of_two().trailing_zeros()
+    x.checked_next_power_of_two()
+        .map_or(u64::BITS, |p| p.trailing_zeros())
 }
 
 #[inline]
